@@ -47,7 +47,10 @@ def _check_case(ctx, r, indent, eol, add_ws):
     obj = gen.build_root(r)
     wit = {"recipe": r, "indent": indent, "eol": eol, "add_ws": add_ws}
     if r["k"] == "list":
-        got = obj.get_html_string(indent, eol, add_ws=add_ws)
+        if add_ws and (indent + len(eol)) % 2 == 0:
+            got = obj.get_html_string(indent, eol)  # the documented default is add_ws=True
+        else:
+            got = obj.get_html_string(indent, eol, add_ws=add_ws)
         want = layout.list_str(r["c"], indent, eol, add_ws)
         how = "TagList.get_html_string"
     else:
